@@ -10,14 +10,39 @@ Space
   end points  E = {-inf, -5, -2, -1, -0.3, -0.05, -1e-3, 0, 1e-3, 0.05, 0.3, 1, 2, 5, +inf}; all 105 pairs a < b
               (the design's eleven points plus +-0.05 and +-5: a finite end far from the origin is what exposes a
               quadrature fall-back that misses the mass at the origin)
+  edges       six more Levy models at the edges of the parameter space (EDGE_SPECS): HEM with p = 1 (one-sided jumps),
+              VG with theta = 0 (lambda_m == lambda_p) and a strongly skewed VG, Merton with the jumps centred far from the
+              origin / spread widely around it, CGMY with g = 1, m = 50
+  histories   every model of the menu is judged as freshly constructed AND as reached through each construction history
+              ("via", see `_build`); the property quantifies over models, not over how they were built:
+                reinit       mc.alphabets.with_reinit: donor parameter object deep-copied, every attribute re-assigned,
+                             initialisation(), model constructor (the route of the calibration helpers of model/utils.py)
+                calib        the iterations of calibrate_model_parameter, for every parameter in turn, on ONE parameter
+                             object taken (deepcopy) from a USED model with other values: set attribute, initialisation(),
+                             construct a model, USE it, set the next value, ... (state computed at first use and kept)
+                after-other  a second object of the same class with other values constructed and used between the
+                             construction and the use of the judged one (class attributes, module-level caches)
+                deepcopy     the model is used, deep-copied, the copy is judged
+              (the edge models: fresh and reinit only). "Used" = every route of n and n+1 on six intervals of E away from the
+              origin (four more touching / containing it for n >= 2), on the measure and on a truncated deep copy.
   n           0..5, each through every public route that serves it:
-                n=0  integrate, integrate_against_xn(n=0), LevyModel.mass
+                n=0  integrate, integrate_against_xn(n=0), LevyModel.mass with scalars and with one-element arrays
                 n=1  integrate_against_x, integrate_against_xn(n=1)
                 n=2  integrate_against_xx, integrate_against_xn(n=2)
                 n>=3 integrate_against_xn(n)
-  truncations none, (-0.5,0.7), (-2,1), (0.1,0.4) [thorough: also (-0.3,2) and (-inf,0.3)] through
-              LevyModel.truncate_levy_measure
-  tools       rpylib.tools.integral.integral_xn_exp_minus_x(n, a, b, alpha) for alpha in {0.1, 0.7, 2.4, 7}, n <= 5, same E
+  truncations through LevyModel.truncate_levy_measure, two construction modes:
+                inplace   a model built anew (through the same history) is truncated
+                deepcopy  the judged, USED model is deep-copied, the copy truncated and its representation set to TILDE
+                          (the sequence of MarkovChainProcess.__init__)
+              single truncations (-0.5,0.7), (-2,1), (0.1,0.4) [thorough: also (-0.3,2) and (-inf,0.3)] and NESTED ones
+              (truncate_levy_measure applied to an already truncated model; the truncation interval is the intersection):
+              inner inside outer, partial overlap, disjoint (empty) [thorough: two more orders].
+              quick: fresh models get all singles and nested in place + three by copy; models reached through a history get
+              one single, one nested, one by copy. thorough: fresh models everything in both modes, histories 3+3 in place
+              and 2 by copy.
+  tools       rpylib.tools.integral.integral_xn_exp_minus_x(n, a, b, alpha) for alpha in {0.1, 0.7, 2.4, 7}, n <= 5, same E;
+              each (alpha, n) twice: every interval evaluated alone ("fresh"), and with the same interval evaluated for
+              another alpha, another n, the same arguments and alpha/2 just before ("interleaved": a remembered result)
 
 Oracle
   value       quadrature of x^n nu(x) with nu = the model's own __call__ (mc.oracle.integrate_density) on the elementary
@@ -28,9 +53,11 @@ Oracle
               on straddling intervals)
   additivity  I(a,b) + I(b,c) = I(a,c) for all triples a < b < c of E whose outer interval is in scope (library values only)
   truncated   density of the truncated measure is exactly 0 at probe points outside [l,r] and equals the base density inside;
-              integral of the truncated measure over [a,b] = the library's own integral of the base measure over
-              [a,b] n [l,r] (0 when the intersection is empty or a point). Together with `value` on the base measure this is
-              the statement; comparing with the base route isolates the clipping logic from the formulas.
+              integral of the truncated measure over [a,b] = the library's own integral of the base measure (the judged
+              model of the same history, evaluated once per route and intersection) over [a,b] n [l,r] (0 when the
+              intersection is empty or a point; [l,r] = intersection of all truncations applied). Together with `value` on
+              the base measure this is the statement; comparing with the base route isolates the clipping logic from the
+              formulas.
   tools       mpmath incomplete gamma function at 30 digits
 
 Scope ("on which they are finite")
@@ -54,32 +81,46 @@ Tolerances
   modules) are compared with 1e-7 |ref| + 5e-8 - the accuracy the library itself requests, with a margin for the two or
   three pieces an evaluation is made of.
 
+Violation keys of a model reached through a history end in `:via=<history>`; truncated keys carry `:nested` and / or
+`:copy-then-truncate`; tools keys of the second pass end in `:interleaved`.
+
 Not covered / outside the alphabet: a > b; a = b; intervals on which the n-th moment diverges; odd n sign on straddling
-  intervals; parameter values and end points off the lattice; n > 5; g = 0 or m = 0 in CGMY.
+  intervals; parameter values and end points off the lattice; n > 5; g = 0 or m = 0 in CGMY; p = 0 in HEM and mu_j < 0 in
+  Merton (rejected by the parameter setters); a model whose parameter object is mutated AFTER the model was constructed and
+  that is used without being rebuilt (the library always constructs a new model from the updated object: see the comment
+  in run_default_calibration); intermediate models of the "calib" history are used but not judged (a constructor that
+  raises there is counted as history_intermediate_model_raises and noted).
 """
 from __future__ import annotations
 
+import copy
+import inspect
 import itertools
 import math
 import sys
 import warnings
 
 from mc import core
-from mc.alphabets import make_model, model_label, model_specs
+from mc.alphabets import DONOR_PARAMS, make_model, model_label, model_specs, with_reinit
 from mc.oracle import integrate_density
 
 PID = "C09"
 LEVEL = "exploration"
 RULE = (
-    "complete product models x n x routes x all pairs a<b of 15 end points x truncations (plus all triples for additivity, "
-    "plus the helper integral for all alpha x n x pairs); a case (model, n) is non-trivial when at least one library value "
-    "was compared with the quadrature of the model's own density; distinct = distinct case dict"
+    "complete product (models x construction histories) x n x routes x all pairs a<b of 15 end points x truncation menu "
+    "(single and nested truncations, in place and copy-then-truncate; plus all triples for additivity, plus the helper "
+    "integral for all alpha x n x pairs, fresh and interleaved with other arguments); a case (model, history, n) is "
+    "non-trivial when at least one library value was compared with the quadrature of the model's own density; distinct = "
+    "distinct case dict"
 )
 ASSUMPTIONS = [
     "the oracle is scipy/mpmath quadrature of the model's own __call__ density on elementary intervals, summed; comparisons "
     "whose summed error estimate exceeds the tolerance are counted as oracle_inconclusive, never alarms",
     "integrability at 0 is read from the density's local exponent at eps=1e-8 (margin 0.1) and from the model's flags",
     "evaluations during which the library called scipy quad are compared at the accuracy quad was asked for (1e-7 rel + 5e-8 abs)",
+    "the construction histories use only public operations in the order the library's calibration helpers and "
+    "MarkovChainProcess use them (deepcopy of a parameter object, attribute assignment, initialisation(), model constructor, "
+    "deepcopy of a model, truncate_levy_measure, set_representation); intermediate models of a history are used, not judged",
 ]
 CHUNK = 1
 
@@ -90,7 +131,34 @@ ENDS = {  # "std" = the eleven points of DESIGN.md; "wide" (used by both tiers) 
 }
 TRUNCS = [(-0.5, 0.7), (-2.0, 1.0), (0.1, 0.4)]
 TRUNCS_THOROUGH = TRUNCS + [(-0.3, 2.0), (-INF, 0.3)]
+# truncations applied one after the other (truncate_levy_measure on an already truncated model): inner inside outer,
+# partial overlap, disjoint (empty intersection)
+NESTED = [[(-2.0, 1.0), (-0.5, 0.7)], [(-0.5, 0.7), (0.1, 2.0)], [(0.1, 0.4), (-2.0, -0.5)]]
+NESTED_THOROUGH = NESTED + [[(-0.5, 0.7), (-2.0, 1.0)], [(-INF, 0.3), (-0.3, 2.0)]]
+# construction histories of the model under test ("via"); "direct" = freshly constructed
+VIAS = ["reinit", "calib", "after-other", "deepcopy"]
+# second donor table: used for an attribute whose first donor value (mc.alphabets.DONOR_PARAMS) equals the target value
+DONOR2 = {
+    "hem": {"sigma": 0.07, "p": 0.55, "eta1": 17.0, "eta2": 23.0, "intensity": 4.0},
+    "merton": {"sigma": 0.07, "sigma_j": 0.06, "mu_j": 0.04, "intensity": 4.0},
+    "vg": {"sigma": 0.13, "nu": 0.09, "theta": 0.05},
+    "cgmy": {"c": 0.3, "g": 8.0, "m": 12.0, "y": 0.3},
+}
+# intervals on which an object is "used" inside a history before the judged sweep (all away from the origin: finite for every n)
+WARM_PAIRS = [(-INF, -0.05), (-1.0, -0.3), (-0.3, -1e-3), (1e-3, 0.3), (0.05, 1.0), (0.3, INF)]
+WARM_PAIRS_AT0 = [(-0.3, 0.3), (0.0, 1.0), (-1.0, 0.0), (-INF, INF)]  # only for n >= 2 (finite for every Levy measure)
 CGMY_Y_EXTRA = [-1.5, 0.2, 0.8, 1.8]  # thorough tier: further values inside each branch of the activity index
+# edges of the parameter space (Levy models; directly constructed and "reinit" twin): one-sided jumps, symmetric VG
+# (lambda_m == lambda_p), strongly skewed VG, Merton jumps centred far from / spread far around the origin, CGMY with a heavy
+# right and a light left tail
+EDGE_SPECS = [
+    {"family": "hem", "exp": False, "params": {"sigma": 0.1, "p": 1.0, "eta1": 10.0, "eta2": 40.0, "intensity": 5.0}},
+    {"family": "vg", "exp": False, "params": {"sigma": 0.2, "nu": 0.2, "theta": 0.0}},
+    {"family": "vg", "exp": False, "params": {"sigma": 0.02, "nu": 1.5, "theta": 0.3}},
+    {"family": "merton", "exp": False, "params": {"sigma": 0.1, "sigma_j": 0.05, "mu_j": 0.5, "intensity": 3.0}},
+    {"family": "merton", "exp": False, "params": {"sigma": 0.1, "sigma_j": 0.5, "mu_j": 0.2, "intensity": 0.5}},
+    {"family": "cgmy", "exp": False, "params": {"c": 2.0, "g": 1.0, "m": 50.0, "y": 0.5}},
+]
 NS = [0, 1, 2, 3, 4, 5]
 ALPHAS = [0.1, 0.7, 2.4, 7.0]
 
@@ -105,9 +173,10 @@ RTOL_QUAD, ATOL_QUAD = 1e-7, 5e-8
 def cases(tier):
     thorough = tier == "thorough"
     out = []
-    for alpha in ALPHAS:
-        for n in NS:
-            out.append({"sub": "tools", "alpha": alpha, "n": n, "ends": "wide"})
+    for hist in ("fresh", "interleaved"):
+        for alpha in ALPHAS:
+            for n in NS:
+                out.append({"sub": "tools", "alpha": alpha, "n": n, "ends": "wide", "hist": hist})
     specs = model_specs(tier, exp=(False, True))
     # the Levy measure does not depend on the rates: one (r,d) per exponential model
     specs = [s for s in specs if not s.get("exp") or (s["r"], s["d"]) == (0.02, 0.0)]
@@ -115,10 +184,27 @@ def cases(tier):
     specs += [{"family": "cgmy", "exp": False, "params": {"c": 1.0, "g": 15.0, "m": 20.0, "y": y}}
               for y in (CGMY_Y_EXTRA if thorough else CGMY_Y_EXTRA[:1])]
     truncs = TRUNCS_THOROUGH if thorough else TRUNCS
-    for n in NS:
-        for spec in specs:
+    nested = NESTED_THOROUGH if thorough else NESTED
+    # every spec directly constructed (simplest first), then through every construction history: the "reinit" twin of
+    # mc.alphabets.with_reinit and the histories of this module (`_build`)
+    twins = [s for s in with_reinit(specs) if s.get("via") == "reinit"]
+    assert len(twins) == len(specs), "with_reinit must give one twin per 1-d spec"
+    variants = list(specs) + twins + [dict(s, via=v) for v in VIAS if v != "reinit" for s in specs]
+    variants += with_reinit(EDGE_SPECS)
+
+    def menu(singles, nests, copies):
+        js = lambda ts: [core.jsonable(list(t)) for t in ts]  # noqa: E731
+        return ([{"Ts": js([t]), "mode": "inplace"} for t in singles] + [{"Ts": js(ts), "mode": "inplace"} for ts in nests]
+                + [{"Ts": js(ts), "mode": "deepcopy"} for ts in copies])
+
+    # directly constructed models: every truncation and every nested pair in place, plus (copy-then-truncate) the first
+    # truncation and the first two nested pairs; models reached through a history: one of each kind
+    full = menu(truncs, nested, [[truncs[0]], nested[0], nested[1]] if not thorough else [[t] for t in truncs] + nested)
+    short = menu(truncs[:1], nested[1:2], [[truncs[0]]]) if not thorough else menu(truncs[:3], nested[:3], [[truncs[0]], nested[1]])
+    for spec in variants:
+        for n in NS:
             out.append({"sub": "model", "model": spec, "n": n, "ends": "wide",
-                        "truncs": [core.jsonable(list(t)) for t in truncs]})
+                        "trunc_menu": short if spec.get("via") else full})
     return out
 
 
@@ -189,7 +275,7 @@ def _install_quad_probe():
 def _routes(n):
     r = []
     if n == 0:
-        r += ["integrate", "mass"]
+        r += ["integrate", "mass", "mass-array"]
     if n == 1:
         r += ["integrate_against_x"]
     if n == 2:
@@ -204,6 +290,10 @@ def _call(model, nu, route, a, b, n):
     try:
         if route == "mass":
             v = model.mass(a, b)
+        elif route == "mass-array":  # the non-scalar form of LevyModel.mass: one-element arrays
+            import numpy as np
+
+            v = model.mass(np.array([a]), np.array([b]))
         elif route == "integrate_against_xn":
             v = nu.integrate_against_xn(a, b, n)
         else:
@@ -215,6 +305,125 @@ def _call(model, nu, route, a, b, n):
     except Exception as e:  # the statement covers the interval: raising is a failure to return the integral
         v, kind = None, f"raises-{type(e).__name__}"
     return kind, v, _PROBE["calls"] > before
+
+
+# ----------------------------------------------------------------------------------------------------------------------
+# construction histories
+# ----------------------------------------------------------------------------------------------------------------------
+
+def _direct(spec):
+    return {k: v for k, v in spec.items() if k != "via"}
+
+
+def _label(spec):
+    via = spec.get("via")
+    return model_label(_direct(spec)) + (f"[{via}]" if via else "")
+
+
+def _via_sfx(spec):
+    return f":via={spec['via']}" if spec.get("via") else ""
+
+
+def _holder(model, spec):
+    return model.levy_model if spec.get("exp") else model
+
+
+def _construct(cls, spec, params):
+    """the constructor call of the library's calibration helpers (model/utils.py)"""
+    if spec.get("exp"):
+        return cls(spot=spec.get("spot", 100.0), r=spec["r"], d=spec["d"], parameters=params)
+    return cls(parameters=params)
+
+
+def _warm(sh, model, n, pairs=None):
+    """USE an object inside a history: every route of n and of the next n on intervals away from the origin (and on
+    intervals touching / containing it for n >= 2), on the measure and on a truncated deep copy (what MarkovChainProcess
+    does with a model). Nothing is judged here; exceptions are swallowed by `_call`."""
+    pairs = list(WARM_PAIRS if pairs is None else pairs)
+    for m in (n, (n + 1) % (NS[-1] + 1)):
+        pp = pairs + (WARM_PAIRS_AT0 if m >= 2 else [])
+        tw = copy.deepcopy(model)
+        tw.truncate_levy_measure((-0.4, 0.6))
+        for mod in (model, tw):
+            nu = mod.levy_triplet.nu
+            for route in _routes(m):
+                for a, b in pp:
+                    _call(mod, nu, route, a, b, m)
+                    sh.count("history_warm_calls")
+
+
+def _donor_values(spec, target_params, names):
+    fam = spec["family"]
+    out = {}
+    for name in names:
+        tv = getattr(target_params, name)
+        for table in (DONOR_PARAMS, DONOR2):
+            dv = table.get(fam, {}).get(name)
+            if dv is not None and dv != tv:
+                out[name] = dv
+                break
+    return out
+
+
+def _build(sh, spec, n):
+    """The model of `spec`, reached through the construction history spec['via']:
+      (none)       library factory, fresh parameter object
+      reinit       mc.alphabets: donor parameter object deep-copied, every attribute re-assigned, initialisation(), constructor
+      calib        what calibrate_model_parameter does over the iterations of its root finder, for every parameter in turn:
+                   a model with other values in every attribute is constructed and USED, its parameter object is deep-copied
+                   once; then, attribute after attribute, the attribute is set to an intermediate value, initialisation(),
+                   a model is constructed from the object and USED, the attribute is set to the target's value,
+                   initialisation(), constructor, use. The last model has the target's values (checked exactly).
+      after-other  the target is constructed, then a SECOND object of the same class with other parameter values is
+                   constructed and used on intervals of the sweep (class attributes, module-level caches, shared default
+                   arguments), then the target is judged
+      deepcopy     the target is constructed, used, deep-copied (MarkovChainProcess, the coupling constructors and the pool
+                   workers all work on copies); the copy is judged
+    """
+    via = spec.get("via")
+    if via in (None, "reinit"):
+        return make_model(spec)
+    direct = _direct(spec)
+    target = make_model(direct)
+    if via == "deepcopy":
+        _warm(sh, target, n)
+        return copy.deepcopy(target)
+    tparams = _holder(target, spec).parameters
+    names = [p for p in inspect.signature(type(tparams).__init__).parameters if p != "self"]
+    donor = _donor_values(spec, tparams, names)
+    if via == "after-other":
+        other = make_model(dict(direct, params=dict(donor)))
+        _warm(sh, other, n)
+        return target
+    if via == "calib":
+        start = make_model(dict(direct, params=dict(donor)))  # differs from the target in every attribute it can
+        _warm(sh, start, n)
+        params = copy.deepcopy(_holder(start, spec).parameters)
+        steps = []
+        for k in names:
+            if k in donor:
+                tv = getattr(tparams, k)
+                steps += [(k, 0.5 * (donor[k] + tv)), (k, tv)]  # an iterate of the root finder, then the root
+        sh.count("history_parameter_updates", len(steps))
+        model = None
+        for pos, (k, v) in enumerate(steps):
+            setattr(params, k, v)
+            params.initialisation()
+            if pos == len(steps) - 1:
+                model = _construct(type(target), spec, params)  # every attribute is at the target's value now
+                break
+            try:  # an intermediate mixture of donor and target values: not judged
+                _warm(sh, _construct(type(target), spec, params), n)
+            except Exception as e:
+                sh.count("history_intermediate_model_raises")
+                sh.note(f"{_label(spec)}: intermediate model of the calibration history raises {type(e).__name__} at {k}={v}")
+        for k in names:  # the history must have reached the target's values (harness self-check, exact)
+            if getattr(params, k) != getattr(tparams, k):
+                raise AssertionError(f"harness: calibration history did not reach {k} of the target")
+        if model is None:
+            raise AssertionError("harness: no parameter of the family could be changed")
+        return model
+    raise ValueError(f"unknown construction history {via!r}")
 
 
 def _tol(ref_abs, scale, used_quad):
@@ -266,10 +475,12 @@ def _sub_model(sh, case):
     E = ENDS[case.get("ends", "std")]
     PAIRS = [(i, j) for i in range(len(E)) for j in range(i + 1, len(E))]
     fam = fam_label(spec)
-    model = make_model(spec)
+    vsfx = _via_sfx(spec)
     _install_quad_probe()
+    model = _build(sh, spec, n)
+    sh.cls(f"via:{spec.get('via') or 'direct'}")
     nu = model.levy_triplet.nu
-    label = model_label(spec)
+    label = _label(spec)
 
     # ---- scope: integrability of |x|^n nu at 0, per side --------------------------------------------------------------
     fin = {}
@@ -314,8 +525,8 @@ def _sub_model(sh, case):
 
     def suffix(a, b):
         if not (a <= 0 <= b):
-            return ""
-        return (suffix_side[-1] if a < 0 else "") or (suffix_side[+1] if b > 0 else "")
+            return vsfx
+        return ((suffix_side[-1] if a < 0 else "") or (suffix_side[+1] if b > 0 else "")) + vsfx
 
     # ---- oracle on elementary intervals ---------------------------------------------------------------------------------
     elem = {}
@@ -418,8 +629,15 @@ def _sub_model(sh, case):
         sh.sample({"sub": "model", "model": label, "n": n, "examples": ex})
 
     # ---- truncated measures ----------------------------------------------------------------------------------------------
-    for T in case.get("truncs", []):
-        _truncated(sh, spec, fam, label, n, tuple(float(core.unjson_float(x)) for x in T), fin, scale, E, PAIRS)
+    def tup(T):
+        return tuple(float(core.unjson_float(x)) for x in T)
+
+    tmenu = case.get("trunc_menu")
+    if tmenu is None:  # case files written before the menu existed
+        tmenu = [{"Ts": [T], "mode": "inplace"} for T in case.get("truncs", [])]
+    base_cache = {}
+    for item in tmenu:
+        _truncated(sh, spec, model, base_cache, fam, label, n, [tup(T) for T in item["Ts"]], item["mode"], fin, scale, E, PAIRS)
 
 
 def _relation(a, b, l, r):
@@ -431,39 +649,59 @@ def _relation(a, b, l, r):
     return "clipped-both" if (cl and cr) else ("clipped-left" if cl else ("clipped-right" if cr else "inside"))
 
 
-def _truncated(sh, spec, fam, label, n, T, fin, scale, E, PAIRS):
-    l, r = T
-    base_model = make_model(spec)
+def _truncated(sh, spec, base_model, base_cache, fam, label, n, Ts, mode, fin, scale, E, PAIRS):
+    """Ts: the truncations applied in this order through LevyModel.truncate_levy_measure (one = the plain truncated
+    measure; several = a truncated measure of a truncated measure, whose truncation interval is the intersection).
+    base_model: the model judged by the value sweep (already used on every interval; never truncated itself).
+    mode: "inplace" = a model built anew through the same construction history is truncated; "deepcopy" = the used
+    base_model is deep-copied and the copy truncated (what MarkovChainProcess does)."""
+    l, r = max(t[0] for t in Ts), min(t[1] for t in Ts)
+    empty = not (l < r)
     base = base_model.levy_triplet.nu
-    tm = make_model(spec)
-    tm.truncate_levy_measure(T)
+    tm = copy.deepcopy(base_model) if mode == "deepcopy" else _build(sh, spec, n)
+    for t in Ts:
+        tm.truncate_levy_measure(t)
+    if mode == "deepcopy":  # the whole sequence of MarkovChainProcess.__init__: copy, truncate, change the representation
+        try:
+            from rpylib.model.levymodel.levymodel import LevyRepresentation
+
+            tm.levy_triplet.set_representation(LevyRepresentation.TILDE)
+            sh.count("history_set_representation")
+        except Exception as e:  # the drift is another property's business
+            sh.count("history_set_representation_raises")
+            sh.note(f"{label}: set_representation(TILDE) after truncation {Ts} raises {type(e).__name__}")
     tnu = tm.levy_triplet.nu
-    tname = f"T=({l},{r})"
+    tname = "T=" + "&".join(f"({t[0]},{t[1]})" for t in Ts) + ("" if mode == "inplace" else "[copy-then-truncate]")
+    tcls = ("nested" if len(Ts) > 1 else "single") + ("" if mode == "inplace" else ":copy-then-truncate")
+    ksfx = (":nested" if len(Ts) > 1 else "") + ("" if mode == "inplace" else ":copy-then-truncate") + _via_sfx(spec)
+    sh.cls(f"truncation:{tcls}:{'empty' if empty else 'nonempty'}")
+    ends = sorted({x for t in Ts for x in t if math.isfinite(x)})
 
     # density: zero outside, the base density inside (probe points: the finite end points and points next to l and r)
     if n == 0:
-        cand = {x for x in E if math.isfinite(x)} | {l - 1e-9, l - 0.25, r + 1e-9, r + 0.25, l + 1e-9, r - 1e-9,
-                                                     math.nextafter(l, -INF), math.nextafter(r, INF)}
-        if math.isfinite(l) and math.isfinite(r):
+        cand = {x for x in E if math.isfinite(x)}
+        for x in ends:
+            cand |= {x - 1e-9, x - 0.25, x + 1e-9, x + 0.25, math.nextafter(x, -INF), math.nextafter(x, INF)}
+        if not empty and math.isfinite(l) and math.isfinite(r):
             cand.add(0.5 * (l + r))
         probes = sorted(x for x in cand if math.isfinite(x))
         for x in probes:
-            if x == l or x == r:
+            if x in ends:
                 continue  # the boundary itself is not "outside"; the statement is silent on a single point
             try:
                 tv = float(tnu(x))
             except Exception as e:
-                sh.violation(f"C09:truncated-density:{fam}:raises-{type(e).__name__}", f"{label} {tname}: density({x}) raises {e!r}", {"x": x})
+                sh.violation(f"C09:truncated-density:{fam}:raises-{type(e).__name__}{ksfx}", f"{label} {tname}: density({x}) raises {e!r}", {"x": x})
                 continue
             sh.count("evaluations")
             if x < l or x > r:
                 if tv != 0.0:
-                    sh.violation(f"C09:truncated-density:{fam}:nonzero-outside-truncation",
+                    sh.violation(f"C09:truncated-density:{fam}:nonzero-outside-truncation{ksfx}",
                                  f"{label} {tname}: truncated density at x={x!r} is {tv!r}, expected 0", {"x": x, "value": tv})
             else:
                 bv = float(base(x))
                 if not core.close(tv, bv, rtol=1e-15):
-                    sh.violation(f"C09:truncated-density:{fam}:differs-from-base-inside-truncation",
+                    sh.violation(f"C09:truncated-density:{fam}:differs-from-base-inside-truncation{ksfx}",
                                  f"{label} {tname}: truncated density at x={x!r} is {tv!r}, base density {bv!r}", {"x": x})
         sh.outcome((label, tname, "density", [round(float(tnu(x)), 9) for x in (-0.3, 0.3)]))
 
@@ -481,7 +719,7 @@ def _truncated(sh, spec, fam, label, n, T, fin, scale, E, PAIRS):
         for (i, j) in PAIRS:
             a, b = E[i], E[j]
             aa, bb = max(a, l), min(b, r)
-            rel = _relation(a, b, l, r)
+            rel = "empty-truncation" if empty else _relation(a, b, l, r)
             if aa < bb and not finite_on(aa, bb):
                 sh.count("truncated_pairs_out_of_scope")
                 continue
@@ -493,25 +731,27 @@ def _truncated(sh, spec, fam, label, n, T, fin, scale, E, PAIRS):
                 if kind != "ok":
                     # does the base route raise on the degenerate interval the clipping maps to? then it is the base
                     # formula's failure (reported by `value`), not the clipping's
-                    p = l if b <= l else r
-                    if _call(base_model, base, route, p, p, n)[0] == kind:
+                    pts = [l if b <= l else r] if len(Ts) == 1 else ends
+                    if any(_call(base_model, base, route, p, p, n)[0] == kind for p in pts):
                         sh.count("truncated_base_route_raises_too")
                         continue
             else:
-                exp_kind, expected, q2 = _call(base_model, base, route, aa, bb, n)
-            key = f"C09:truncated:{fam}:{route}:%s:n={n}:{rel}"
+                if (route, aa, bb) not in base_cache:  # one base evaluation per route and intersection in a case
+                    base_cache[(route, aa, bb)] = _call(base_model, base, route, aa, bb, n)
+                exp_kind, expected, q2 = base_cache[(route, aa, bb)]
+            key = f"C09:truncated:{fam}:{route}:%s:n={n}:{rel}{ksfx}"
             what = f"{label} {tname}: {route}({a}, {b}) on the truncated measure"
             if kind != "ok":
                 if exp_kind == kind:
                     sh.count("truncated_base_route_raises_too")  # the base formula's failure is reported by `value`
                     continue
                 sh.violation(key % kind, f"{what} {kind}; the base measure over the intersection [{aa}, {bb}] gives {expected!r}",
-                             {"a": a, "b": b, "T": T, "n": n, "route": route})
+                             {"a": a, "b": b, "T": Ts, "n": n, "route": route})
                 continue
             if exp_kind != "ok":
                 sh.violation(key % "returns-where-base-raises",
                              f"{what} = {v!r} but the base measure over the intersection [{aa}, {bb}] {exp_kind}",
-                             {"a": a, "b": b, "T": T, "n": n, "route": route})
+                             {"a": a, "b": b, "T": Ts, "n": n, "route": route})
                 continue
             obs.append(round(v, 12) if math.isfinite(v) else repr(v))
             if math.isnan(expected) and math.isnan(v):
@@ -523,7 +763,7 @@ def _truncated(sh, spec, fam, label, n, T, fin, scale, E, PAIRS):
                 sh.violation(key % fc,
                              f"{what} = {v!r}; intersection with the truncation is "
                              f"{'empty' if aa >= bb else '[%r, %r]' % (aa, bb)} where the base measure gives {expected!r}",
-                             {"a": a, "b": b, "T": T, "n": n, "route": route, "truncated": v, "base_on_intersection": expected})
+                             {"a": a, "b": b, "T": Ts, "n": n, "route": route, "truncated": v, "base_on_intersection": expected})
         sh.outcome((label, tname, n, route, obs[:8]))
 
 
@@ -558,6 +798,9 @@ def _sub_tools(sh, case):
     PAIRS = [(i, j) for i in range(len(E)) for j in range(i + 1, len(E))]
     scale = math.factorial(n) / alpha ** (n + 1)
     ncls = f"n={n}" if n < 2 else ("n>=2-even" if n % 2 == 0 else "n>=2-odd")
+    interleaved = case.get("hist", "fresh") == "interleaved"
+    hsfx = ":interleaved" if interleaved else ""
+    sh.cls(f"tools:history:{case.get('hist', 'fresh')}")
     vals = {}
     for (i, j) in PAIRS:
         a, b = E[i], E[j]
@@ -565,21 +808,29 @@ def _sub_tools(sh, case):
         r = _ref_xn_exp(n, a, b, alpha)
         sh.count("evaluations")
         sh.cls(f"tools:{ncls}:{cls}")
+        if interleaved:
+            # the same interval with another alpha and another n in between (a result remembered under too coarse a key)
+            for n2, al2 in ((n, 1.7 * alpha + 0.3), ((n + 1) % (NS[-1] + 1), alpha), (n, alpha), (n, 0.5 * alpha)):
+                try:
+                    integral_xn_exp_minus_x(n=n2, a=a, b=b, alpha=al2)
+                except Exception:
+                    pass  # not judged here
+                sh.count("history_warm_calls")
         try:
             v = float(integral_xn_exp_minus_x(n=n, a=a, b=b, alpha=alpha))
         except Exception as e:
-            sh.violation(f"C09:tools:integral_xn_exp_minus_x:raises-{type(e).__name__}:{ncls}:{cls}",
+            sh.violation(f"C09:tools:integral_xn_exp_minus_x:raises-{type(e).__name__}:{ncls}:{cls}{hsfx}",
                          f"integral_xn_exp_minus_x(n={n}, a={a}, b={b}, alpha={alpha}) raises {e!r}; value {r!r}", {"reference": r})
             continue
         vals[(i, j)] = v
         tol = RTOL_CLOSED * abs(r) + ATOL_CLOSED_REL * scale
         if not (abs(v - r) <= tol):
             fc = _failure_class(v, r, tol)
-            sh.violation(f"C09:tools:integral_xn_exp_minus_x:{fc}:{ncls}:{cls}",
+            sh.violation(f"C09:tools:integral_xn_exp_minus_x:{fc}:{ncls}:{cls}{hsfx}",
                          f"integral_xn_exp_minus_x(n={n}, a={a}, b={b}, alpha={alpha}) = {v!r} but the integral of "
                          f"x^{n} exp(-{alpha}|x|) over [{a}, {b}] is {r!r}",
                          {"n": n, "a": a, "b": b, "alpha": alpha, "library": v, "reference": r})
-    sh.outcome(("tools", n, alpha, [round(v, 12) for v in list(vals.values())[:6]]))
+    sh.outcome(("tools", n, alpha, case.get("hist", "fresh"), [round(v, 12) for v in list(vals.values())[:6]]))
     sh.nontriv()
     if n == 2 and alpha == 0.7:
         sh.sample({"sub": "tools", "n": n, "alpha": alpha, "a": 0.0, "b": 1.0, "library": vals.get((E.index(0.0), E.index(1.0))),
